@@ -15,7 +15,7 @@ import operator
 import numpy as np
 
 from ..core import (Violation, Reject, HarnessError, np_rng, elem_arrays,
-                    fill_garbage, elem_digest)
+                    fill_garbage, elem_digest, guarded_layout)
 from .. import seams
 from .. import spaces as SP
 
@@ -71,8 +71,11 @@ ASSUMPTIONS = {
             'a clean batch is evidence, not proof'],
 }
 
-FLOAT_DTYPES = ['float64', 'float64', 'float32', 'complex128', 'complex64']
-INT_DTYPES = ['int64', 'int32']
+# native dtypes mostly; byte-swapped (non-native endian) ones are legal
+# NumPy dtypes that odl supports and that BLAS does not
+FLOAT_DTYPES = ['float64'] * 6 + ['float32'] * 3 + ['complex128'] * 3 + \
+    ['complex64'] * 3 + ['>f8', '>f4', 'float16']
+INT_DTYPES = ['int64'] * 3 + ['int32'] * 3 + ['>i4', 'int16']
 
 
 # --------------------------------------------------------------------------
@@ -110,10 +113,22 @@ def gen_leaf_space(rng, thresholds):
     isint = rng.random() < 0.2
     dtype = rng.choice(INT_DTYPES if isint else FLOAT_DTYPES)
     shape = _shape_for(rng, n)
-    if kind == 'discr' and not isint:
+    if kind == 'discr' and not isint and dtype not in ('float16',
+                                                       'longdouble'):
         return {'k': 'discr', 'shape': shape, 'len': [1.0] * len(shape),
                 'dtype': dtype}, regime
-    return {'k': 'tensor', 'shape': shape, 'dtype': dtype}, regime
+    cfg = {'k': 'tensor', 'shape': shape, 'dtype': dtype}
+    if not isint:
+        # weighting / exponent do not enter the arithmetic, but they are part
+        # of the space every result has to belong to
+        r = rng.random()
+        if r < 0.15:
+            cfg['weighting'] = rng.choice([0.5, 2.0])
+        elif r < 0.25:
+            cfg['weighting'] = 'array'
+        elif r < 0.32:
+            cfg['exponent'] = rng.choice([1.0, float('inf'), 1.5])
+    return cfg, regime
 
 
 def generate(prop, rng, tier):
@@ -138,6 +153,14 @@ def generate(prop, rng, tier):
     elif struct == 'hetero':
         leaf2, _ = gen_leaf_space(rng, thresholds)
         leaf2['dtype'] = leaf['dtype']
+        if np.dtype(leaf['dtype']).kind in 'iu' or leaf['dtype'] in (
+                'float16', 'longdouble'):
+            leaf2.pop('weighting', None)
+            leaf2.pop('exponent', None)
+            if leaf2['k'] == 'discr' and leaf['dtype'] in ('float16',
+                                                           'longdouble'):
+                leaf2 = {'k': 'tensor', 'shape': leaf2['shape'],
+                         'dtype': leaf['dtype']}
         cfg['leaf2'] = leaf2
     elif struct == 'nested':
         cfg['n'] = rng.randint(1, 2)
@@ -263,16 +286,7 @@ def _leaf_array(shape, dtype, layout, g, positive=False):
     vals = SP.rand_array(shape, dtype, g, positive=positive)
     if np.dtype(dtype).kind in 'iu':
         vals = np.asarray(g.integers(-3, 4, size=shape)).astype(dtype)
-    shape = tuple(shape)
-    if layout == 'F':
-        arr = np.asfortranarray(vals)
-    elif layout == 'strided':
-        big = np.zeros(shape[:-1] + (2 * shape[-1] + 1,), dtype=dtype)
-        arr = big[..., 1::2]
-        arr[...] = vals
-    else:
-        arr = np.ascontiguousarray(vals)
-    return arr
+    return guarded_layout(vals, layout)
 
 
 class Pool(object):
@@ -280,7 +294,11 @@ class Pool(object):
         o = SP.odl()
         cfg = plan['space']
         self.cfg = cfg
-        self.leafspace = SP.build_space(cfg['leaf'])
+        try:
+            self.leafspace = SP.build_space(cfg['leaf'])
+            leaf2 = SP.build_space(cfg['leaf2']) if 'leaf2' in cfg else None
+        except (ValueError, TypeError, KeyError) as e:
+            raise Reject('rejected_config: ' + str(e)[:80])
         st = cfg['struct']
         self.base = None
         if st == 'leaf':
@@ -289,8 +307,7 @@ class Pool(object):
             self.S = o.ProductSpace(self.leafspace, cfg['n'])
             self.base = self.leafspace
         elif st == 'hetero':
-            self.S = o.ProductSpace(self.leafspace,
-                                    SP.build_space(cfg['leaf2']))
+            self.S = o.ProductSpace(self.leafspace, leaf2)
         else:
             inner = o.ProductSpace(self.leafspace, cfg['m'])
             self.S = o.ProductSpace(inner, cfg['n'])
@@ -538,9 +555,27 @@ class Run(object):
             v, m = model_leaf(kind, Av, Bv, ma, mb, n, mdt)
             exp.append(v)
             mags.append(m)
-        if any(np.any(np.abs(v.astype(np.complex128)) > 1e12) for v in exp):
+        # representable range of the space's dtype (float16 overflows at 65504,
+        # int16 at 32767: intermediate terms have to fit as well)
+        ldt = np.dtype(pool.cfg['leaf']['dtype'])
+        lim = 1e12 if ldt.kind in 'iu' or np.finfo(ldt).max > 1e13 else \
+            float(np.finfo(ldt).max) / 16
+        if any(np.any(np.abs(v.astype(np.complex128)) > lim) for v in exp) or \
+                (lim < 1e12 and any(np.any(np.asarray(m, dtype=float) > lim)
+                                    for m in mags)):
             raise Reject('magnitude out of the explored range')
-        if pool.isint and any(np.any(np.abs(v) > 2 ** 30) for v in exp):
+        if lim < 1e12:
+            # odl's copy-free axpy computes (y / a + x) * a: the quotient has
+            # to fit into the dtype as well (float16 only; with 32/64 bits
+            # the explored magnitudes are far from the range limits)
+            sc = [abs(complex(t)) for t in (ma, mb) if t is not None]
+            inv = max([1.0] + [1.0 / t for t in sc if t != 0])
+            top = max([0.0] + [float(np.max(np.abs(v))) for v in
+                               list(Avals) + list(Bvals) if v.size])
+            if top * inv * (sum(sc) + 1.0) > lim:
+                raise Reject('magnitude out of the explored range')
+        ilim = min(2 ** 30, int(np.iinfo(ldt).max) // 4) if pool.isint else 0
+        if pool.isint and any(np.any(np.abs(v) > ilim) for v in exp):
             raise Reject('integer range')
         # ---- out buffer fault -------------------------------------------------
         out_keys = set(_keys(out_obj)) if out_obj is not None else set()
